@@ -346,6 +346,11 @@ func binopSym(op token.Token, t types.Type, x, y value) value {
 		if signed {
 			o = s
 		}
+		// comparisons against the extreme values of the type are decided here: a
+		// bit-blasting solver can need minutes to see that (bvsdiv x y) > MaxInt64 is false
+		if r, ok := extremeCmp(op, w, signed, x, y); ok {
+			return r
+		}
 		return Sym{T: fmt.Sprintf("(%s %s %s)", o, a, b)}
 	}
 	ar := func(o string) value { return X.name(Sym{T: fmt.Sprintf("(%s %s %s)", o, a, b), W: w, Signed: signed}) }
@@ -384,6 +389,42 @@ func binopSym(op token.Token, t types.Type, x, y value) value {
 		return cmp("bvsge", "bvuge")
 	}
 	panic("binopSym op " + op.String())
+}
+
+// extremeCmp folds x op c when c is the minimum or maximum of the type.
+func extremeCmp(op token.Token, w int, signed bool, x, y value) (value, bool) {
+	var maxv, minv uint64
+	if signed {
+		maxv = uint64(1)<<(uint(w)-1) - 1
+		minv = uint64(1) << (uint(w) - 1)
+	} else {
+		maxv = ^uint64(0) >> (64 - uint(w))
+		minv = 0
+	}
+	mask := ^uint64(0) >> (64 - uint(w))
+	konst := func(v value) (uint64, bool) {
+		if isSymbolic(v) {
+			return 0, false
+		}
+		return asUint64FromAny(v) & mask, true
+	}
+	if c, ok := konst(y); ok {
+		switch {
+		case op == token.GTR && c == maxv, op == token.LSS && c == minv:
+			return false, true
+		case op == token.LEQ && c == maxv, op == token.GEQ && c == minv:
+			return true, true
+		}
+	}
+	if c, ok := konst(x); ok {
+		switch {
+		case op == token.LSS && c == maxv, op == token.GTR && c == minv:
+			return false, true
+		case op == token.GEQ && c == maxv, op == token.LEQ && c == minv:
+			return true, true
+		}
+	}
+	return nil, false
 }
 
 func unopSym(instr *ssa.UnOp, x Sym) value {
